@@ -202,6 +202,33 @@ void orc_c03_quiescent() {
                 }
         }
     }
+    // what a RUNNING module has registered is being polled when the loop goes back to waiting - whenever it was registered (before the
+    // loop, between two runs, from a callback): each descriptor source is in the interest list, and the list is at least as long as
+    // the mailboxes and descriptor-backed sources (fd, timer, signal, path, pid) of the RUNNING modules
+    if (W->quiescent_real && on("C03")) {
+        oracle_eval("C03.registered-sources-polled");
+        sim::File *ep = nullptr;
+        for (int fd : R->k.open_fds(sim::OWN_LIB)) { sim::File *f = R->k.get(fd); if (f && f->kind == sim::F_EPOLL) ep = f; }
+        if (ep) {
+            size_t expected_min = 0;
+            for (auto &s : W->slots) {
+                if (s.st != ST_RUNNING || s.ctx_gen != W->ctx_registrations) continue;
+                expected_min++;
+                for (auto &x : s.srcs) {
+                    if (x.type == M_SRC_TYPE_FD || x.type == M_SRC_TYPE_TMR || x.type == M_SRC_TYPE_SGN || x.type == M_SRC_TYPE_PATH || x.type == M_SRC_TYPE_PID) expected_min++;
+                    if (x.type != M_SRC_TYPE_FD) continue;
+                    sim::File *uf = R->k.get(x.fd);
+                    if (!uf) { expected_min--; continue; }   // closed under the library (the kernel dropped it from the list)
+                    bool found = false;
+                    for (auto &rg : ep->regs) if (rg.file_id == uf->id) found = true;
+                    if (!found)
+                        VIOL("C03", "C03:registered-source-not-polled:fd", "descriptor %d, registered by module slot %d (RUNNING) at event %lu, is not in the context's interest list when the loop goes back to polling", x.fd, s.idx, (unsigned long)x.reg_gseq);
+                }
+            }
+            if (ep->regs.size() < expected_min)
+                VIOL("C03", "C03:registered-source-not-polled", "the context polls %zu descriptor(s) when it goes back to waiting; the RUNNING modules' mailboxes and descriptor-backed sources alone are %zu", ep->regs.size(), expected_min);
+        }
+    }
     // a blocking loop polls again only while it has a reason to keep running
     if (W->quiescent_real && !W->loops.empty() && !W->loops.back().ended && W->loops.back().blocking) {
         oracle_eval("C03.loop-continues-only-with-reason");
